@@ -313,7 +313,8 @@ package alephium
 // ---------------------------------------------------------------- re-observation path (C08)
 
 //@ func (w *Watcher) getGovernanceEventsByTxId(ctx context.Context, logger *zap.Logger, client *Client, address string, blockHash string, txId string) (evs []*reobservedEvent, err error)
-//@   props C08
+//@   props C08 C11
+//@   ensures [each-event-its-own-copy] err == nil ==> (forall j in 0..len(evs) :: forall k in 0..len(evs) :: j != k ==> evs[j].ContractEventByTxId != evs[k].ContractEventByTxId)
 //@   requires w != nil && w.client != nil && client != nil
 //@   ensures [from-core-contract] err == nil ==> (forall k in 0..len(evs) :: evs[k] != nil && evs[k].ContractEventByTxId != nil && evs[k].ContractAddress == address && evs[k].EventIndex == 0 && evs[k].header != nil && (evs[k].isTransfer <==> isTransferFields(evs[k].Fields)))
 //@   modifies fresh reobservedEvent.*, fresh sdk.ContractEventByTxId.*, fresh TokenInfo.*, fresh lib:big.Int.v, fresh cell:uint8, fresh cell:string, fresh cell:Byte32, fresh sdk.MultipleCallContract.*, fresh WormholeMessage.*
@@ -321,6 +322,7 @@ package alephium
 //@   loop [range events.Events]:
 //@     invariant [from-core-contract] forall k in 0..len(reobservedEvents) :: reobservedEvents[k] != nil && allocated(reobservedEvents[k]) && reobservedEvents[k].ContractEventByTxId != nil && allocated(reobservedEvents[k].ContractEventByTxId) && reobservedEvents[k].ContractAddress == address && reobservedEvents[k].EventIndex == 0 && reobservedEvents[k].header != nil && (reobservedEvents[k].isTransfer <==> isTransferFields(reobservedEvents[k].Fields))
 //@     invariant [self] w != nil && w.client != nil && client != nil
+//@     invariant [each-event-its-own-copy] (forall j in 0..len(reobservedEvents) :: forall k in 0..len(reobservedEvents) :: j != k ==> reobservedEvents[j].ContractEventByTxId != reobservedEvents[k].ContractEventByTxId) && (forall k in 0..len(reobservedEvents) :: fresh(reobservedEvents[k].ContractEventByTxId))
 
 //@ pred isTransferFields(fs []sdk.Val) = len(fs) == 6 && fs[4].ValByteVec != nil && len(bytevecval(fs[4])) > 0 && bytevecval(fs[4])[0] == 1
 //@ func (w *Watcher) handleObsvRequest(ctx context.Context, logger *zap.Logger, client *Client)
@@ -340,7 +342,20 @@ package alephium
 //@     invariant [confirmed] forall k in 0..len(confirmed) :: confirmed[k] != nil && confirmed[k].ContractEventByTxId != nil && confirmed[k].header != nil && confirmed[k].header.Timestamp >= 0
 
 //@ func (w *Watcher) handleGovernanceMessages(logger *zap.Logger, confirmed []*reobservedEvent) (err error)
-//@   props C08
+//@   props C08 C11
 //@   requires w != nil && (forall i in 0..len(confirmed) :: confirmed[i] != nil && confirmed[i].ContractEventByTxId != nil && confirmed[i].header != nil && confirmed[i].header.Timestamp >= 0)
 //@   modifies chan:*common.MessagePublication, fresh common.MessagePublication.*, fresh lib:big.Int.v, fresh cell:uint8, fresh cell:Byte32, fresh WormholeMessage.*
 //@   at [w.msgChan <- wormholeMsg.toMessagePublication(e.header)]: assert [only-token-bridge-sender] wormholeMsg.senderId == w.tokenBridgeContractId
+
+// ---------------------------------------------------------------- the watcher's configuration (C08)
+
+// "The configured token-bridge contract" and "the configured core contract" of C08 are what the
+// constructor copies out of the chain configuration: the sender every message is compared with
+// is the contracts.tokenBridge entry, the event stream is the contracts.governance entry.
+//@ func NewAlephiumWatcher(url string, apiKey string, chainConfig *common.ChainConfig, rd readiness.Component, messageEvents chan *common.MessagePublication, pollIntervalMs uint, obsvReqC chan *gossipv1.ObservationRequest, isMainnet bool) (w *Watcher, err error)
+//@   props C08
+//@   requires chainConfig != nil
+//@   ensures [rejects] err != nil ==> w == nil
+//@   ensures [sender-is-the-configured-token-bridge] err == nil ==> w != nil && old(len(chainConfig.Contracts.TokenBridge) == 64 && hexok(chainConfig.Contracts.TokenBridge)) && (forall i in 0..32 :: at32(w.tokenBridgeContractId, i) == old(unhex(chainConfig.Contracts.TokenBridge))[i])
+//@   ensures [wiring] err == nil ==> w.msgChan == messageEvents && w.obsvReqC == obsvReqC && w.isMainnet == isMainnet && w.blockPollerEnabled != nil && w.chainIndex != nil && w.client != nil
+//@   modifies *
